@@ -38,6 +38,10 @@ MAX_PATHS = 64
 EXC_FAILS = []
 
 
+class PathExplosion(Exception):
+    pass
+
+
 def all_paths(ex, runner):
     """every feasible path of the kernel (the unchanged kernels have exactly one; a change that makes them
     branch on the samples is followed path by path, up to MAX_PATHS)"""
@@ -56,7 +60,7 @@ def all_paths(ex, runner):
             continue
         outs.append((ctx, out[1]))
         if len(outs) > MAX_PATHS:
-            raise EncodingError("kernel forks into more than %d paths" % MAX_PATHS)
+            raise PathExplosion("kernel forks into more than %d paths" % MAX_PATHS)
     return outs
 
 
@@ -246,6 +250,9 @@ def job(args):
             r = check_matrix(K, extra)
         else:
             r = check_converged(K)
+    except PathExplosion as e:
+        r = {"paths": MAX_PATHS, "obligations": 0, "discharged": 0, "fail": [],
+             "inconclusive": ["%s K=%s: %s" % (kind, K, e)]}
     except EncodingError as e:
         r = {"paths": 0, "obligations": 0, "discharged": 0, "fail": [], "inconclusive": [], "encoding_error": str(e)}
     r.update(kind=kind, K=K, extra=extra, queries=pyz3.STATS["queries"], seconds=round(pyz3.STATS["seconds"], 3))
@@ -295,8 +302,7 @@ def run(tier):
         nval, bad = validate_translator()
     except EncodingError as e:
         return common.EXIT_HARNESS, {}, ["ENCODING-ERROR property=C19 %s" % e], [], []
-    if bad:
-        return common.EXIT_HARNESS, {}, ["HARNESS-ERROR property=C19 translator validation failed: %s" % bad], [], []
+    validation_failure = bad      # decided below: fatal unless the kernels produce a reproducible witness
     if tier == "quick":
         Ks = list(range(1, 41)) + [100]
         Kc = list(range(1, 21))
@@ -331,7 +337,18 @@ def run(tier):
             [U().RunningStatistics, U().RunningCovariance, U().RunningCovarianceMatrix]),
         "kernel_wall_s": round(time.time() - t0, 1),
     }
-    return common.EXIT_OK, cov, [], fails, incon
+    if validation_failure and not fails:
+        return (common.EXIT_HARNESS, {},
+                ["HARNESS-ERROR property=C19 translator validation failed: %s" % validation_failure], [], [])
+    lines = []
+    if validation_failure:
+        # the exact-rational encoding and the binary64 run disagree on a concrete vector (the code's behaviour
+        # depends on exact float equalities); the symbolic kernels found witnesses, which are replayed on the real
+        # classes and decide the verdict
+        lines.append("  note: translator validation disagreed (%s); verdict rests on replayed witnesses"
+                     % validation_failure)
+        cov["kernel_translator_validation_disagreement"] = validation_failure
+    return common.EXIT_OK, cov, lines, fails, incon
 
 
 def replay_fail(K, kind, witness):
@@ -361,5 +378,26 @@ def replay_fail(K, kind, witness):
         rc.update_from_it(xs, ys)
         ref = float(np.cov(xs, ys, bias=True)[0, 1]) if h > 1 else 0.0
         scale = 1 + max(abs(v) for v in vals) ** 2
-        return abs(rc.covar - ref) > 1e-6 * scale, "covar=%s vs numpy %s" % (rc.covar, ref)
+        try:
+            bad = rc.count != h or abs(rc.covar - ref) > 1e-6 * scale
+            return bad, "count=%s covar=%s vs %d samples, numpy %s" % (rc.count, rc.covar, h, ref)
+        except Exception as e:  # noqa
+            return True, "raises %s: %s" % (type(e).__name__, e)
+    if kind == "matrix":
+        n = 2
+        while len(vals) % n or (len(vals) // n) != K:
+            n += 1
+            if n > 8:
+                return False, "cannot split the witness"
+        series = [vals[i * K:(i + 1) * K] for i in range(n)]
+        rcm = u.RunningCovarianceMatrix(n)
+        rcm.update_from_it(*series)
+        try:
+            cm = rcm.covar_matrix
+            ref = np.cov(np.array(series), bias=True) if K > 1 else np.zeros((n, n))
+            scale = 1 + max(abs(v) for v in vals) ** 2
+            bad = rcm.count != K or bool((abs(cm - ref) > 1e-6 * scale).any())
+            return bad, "count=%s covar_matrix=%s vs numpy %s" % (rcm.count, cm.tolist(), np.asarray(ref).tolist())
+        except Exception as e:  # noqa
+            return True, "raises %s: %s" % (type(e).__name__, e)
     return False, "no real replay for kernel %s" % kind
